@@ -505,3 +505,223 @@ func init() {
 		return nil
 	})
 }
+
+// ---- C29: cmd/scriggo mdescape.go and the guard of appendReplacement ----
+
+func init() {
+	register("Facts_linkdest", func(w *world, b *bytes.Buffer) error {
+		p := w.pkg("cmd/scriggo")
+		emitByteSet(b, "gen_mdurl_escapable", "mdescape.go isMarkdownEscapable", boolFunc(p, "isMarkdownEscapable"))
+
+		// markdownURLEscape: the byte searched, the byte written, and the next bytes that double it
+		ue := mustFunc(p, "markdownURLEscape")
+		ib := callsTo(ue.Body, "strings.IndexByte")
+		if len(ib) != 1 || len(ib[0].Args) != 2 {
+			return fmt.Errorf("markdownURLEscape: expected one strings.IndexByte(s, c)")
+		}
+		sv := newEnv(p).eval(ib[0].Args[1])
+		if sv == nil {
+			return fmt.Errorf("markdownURLEscape: searched byte not constant")
+		}
+		fmt.Fprintf(b, "(* mdescape.go markdownURLEscape: the byte searched by strings.IndexByte *)\nDefinition gen_mdurl_esc_search : N := %d.\n\n", i64(sv))
+		uls := loops(ue.Body)
+		if len(uls) != 1 {
+			return fmt.Errorf("markdownURLEscape: expected 1 loop, found %d", len(uls))
+		}
+		ueIter := func(n, next int64) (written []int64, sAdv bool) {
+			e := newEnv(p)
+			e.byname[types.ExprString(ib[0])] = constant.MakeInt64(0)
+			e.byname["len(s)"] = constant.MakeInt64(n)
+			if n > 1 {
+				e.byname["s[i+1]"] = constant.MakeInt64(next)
+				e.byname["s[i + 1]"] = constant.MakeInt64(next)
+			}
+			k := e.run(loopBody(uls[0]).List)
+			if k != stopNone {
+				panic(fmt.Sprintf("markdownURLEscape: loop body not evaluable (%d: %s)", k, e.why))
+			}
+			for _, ef := range e.effects {
+				switch ef.fn {
+				case "b.WriteByte":
+					if len(ef.args) != 1 || ef.args[0] == nil {
+						panic("markdownURLEscape: b.WriteByte of a non-constant")
+					}
+					written = append(written, i64(ef.args[0]))
+				case "b.WriteString":
+				default:
+					panic("markdownURLEscape: unexpected call " + ef.fn)
+				}
+			}
+			return written, true
+		}
+		wl, _ := ueIter(1, 0)
+		if len(wl) != 1 {
+			return fmt.Errorf("markdownURLEscape: a final backslash is not doubled by one WriteByte")
+		}
+		fmt.Fprintf(b, "(* mdescape.go markdownURLEscape: the byte written after a final searched byte *)\nDefinition gen_mdurl_esc_written : N := %d.\n\n", wl[0])
+		emitByteSet(b, "gen_mdurl_esc_doubles", "mdescape.go markdownURLEscape: next bytes d after which the searched byte is doubled (the same byte is written)", func(d int64) bool {
+			ws, _ := ueIter(2, d)
+			if len(ws) > 1 || (len(ws) == 1 && ws[0] != wl[0]) {
+				panic("markdownURLEscape: unexpected bytes written")
+			}
+			return len(ws) == 1
+		})
+
+		// markdownUnescape: one iteration on (s[i], s[i+1]) in the interior
+		un := mustFunc(p, "markdownUnescape")
+		nls := loops(un.Body)
+		if len(nls) != 1 {
+			return fmt.Errorf("markdownUnescape: expected 1 loop, found %d", len(nls))
+		}
+		iobj, lobj := localObj(p, un, "i"), localObj(p, un, "last")
+		// class: 0 nothing, 1 the next byte is written and skipped, 2 a constant byte is written and the next skipped
+		unIter := func(c, d int64, hasNext bool) (class int64, wr int64) {
+			e := newEnv(p)
+			e.vars[iobj] = constant.MakeInt64(3)
+			e.vars[lobj] = constant.MakeInt64(3)
+			e.byname["s[i]"] = constant.MakeInt64(c)
+			if hasNext {
+				e.byname["len(s)"] = constant.MakeInt64(9)
+				e.byname["s[i+1]"] = constant.MakeInt64(d)
+				e.byname["s[i + 1]"] = constant.MakeInt64(d)
+			} else {
+				e.byname["len(s)"] = constant.MakeInt64(4)
+			}
+			k := e.run(loopBody(nls[0]).List)
+			if k != stopNone && k != stopContinue {
+				panic(fmt.Sprintf("markdownUnescape (%d,%d): not evaluable (%d: %s)", c, d, k, e.why))
+			}
+			adv := i64(e.vars[iobj]) - 3
+			if len(e.effects) == 0 {
+				if adv != 0 || i64(e.vars[lobj]) != 3 {
+					panic("markdownUnescape: index moved without a write")
+				}
+				return 0, 0
+			}
+			if len(e.effects) != 1 || adv != 1 || i64(e.vars[lobj]) != 5 {
+				panic(fmt.Sprintf("markdownUnescape (%d,%d): unexpected effects %v, i+%d", c, d, e.effects, adv))
+			}
+			ef := e.effects[0]
+			switch ef.fn {
+			case "b.Write":
+				return 1, 0
+			case "b.WriteByte":
+				if ef.args[0] == nil {
+					panic("markdownUnescape: WriteByte of a non-constant")
+				}
+				return 2, i64(ef.args[0])
+			}
+			panic("markdownUnescape: unexpected call " + ef.fn)
+		}
+		// the slice written in class 1 is s[i+1 : i+2]: checked on the printed form
+		okSlice := false
+		for _, cexp := range callsTo(un.Body, "b.Write") {
+			if len(cexp.Args) == 1 {
+				t := strings.ReplaceAll(types.ExprString(cexp.Args[0]), " ", "")
+				if t == "s[i+1:i+2]" {
+					okSlice = true
+				}
+			}
+		}
+		fmt.Fprintf(b, "(* mdescape.go markdownUnescape: the escape case writes s[i+1 : i+2] *)\nDefinition gen_mdurl_unesc_writes_next : bool := %s.\n\n", coqBool(okSlice))
+		fmt.Fprintf(b, "(* mdescape.go markdownUnescape: pairs (c, d) for which d is written in place of c d *)\nDefinition gen_mdurl_unesc_escape : list (N * list N) := [")
+		first := true
+		for c := int64(0); c < 256; c++ {
+			var ds []int64
+			for d := int64(0); d < 256; d++ {
+				if cl, _ := unIter(c, d, true); cl == 1 {
+					ds = append(ds, d)
+				}
+			}
+			if len(ds) > 0 {
+				if !first {
+					b.WriteString(";")
+				}
+				first = false
+				fmt.Fprintf(b, "\n  (%d, %s)", c, coqNList(ds))
+			}
+		}
+		b.WriteString("].\n\n")
+		fmt.Fprintf(b, "(* mdescape.go markdownUnescape: triples (c, d, w): the pair c d is replaced by the byte w *)\nDefinition gen_mdurl_unesc_subst : list (N * (N * N)) := [")
+		first = true
+		for c := int64(0); c < 256; c++ {
+			for d := int64(0); d < 256; d++ {
+				if cl, wr := unIter(c, d, true); cl == 2 {
+					if !first {
+						b.WriteString("; ")
+					}
+					first = false
+					fmt.Fprintf(b, "(%d, (%d, %d))", c, d, wr)
+				}
+			}
+		}
+		b.WriteString("].\n\n")
+		lastOK := true
+		for c := int64(0); c < 256; c++ {
+			if cl, _ := unIter(c, 0, false); cl != 0 {
+				lastOK = false
+			}
+		}
+		fmt.Fprintf(b, "(* mdescape.go markdownUnescape: the last byte of the input is never part of a pair *)\nDefinition gen_mdurl_unesc_last_plain : bool := %s.\n\n", coqBool(lastOK))
+
+		// appendReplacement: the guard returns exactly when start < 0 || stop <= start || stop > len(src)
+		ar := findMethod(p, "linkDestinationReplacer", "appendReplacement")
+		if ar == nil {
+			return fmt.Errorf("linkDestinationReplacer.appendReplacement not found")
+		}
+		guard := true
+		for st := int64(-2); st <= 5; st++ {
+			for sp := int64(-2); sp <= 6; sp++ {
+				for n := int64(0); n <= 5; n++ {
+					e := newEnv(p)
+					bindParams(e, ar, map[string]constant.Value{"start": constant.MakeInt64(st), "stop": constant.MakeInt64(sp)})
+					e.byname["len(src)"] = constant.MakeInt64(n)
+					k := e.run(ar.Body.List[:1])
+					returns := k == stopReturn
+					if k != stopReturn && k != stopNone {
+						return fmt.Errorf("appendReplacement: first statement is not the range guard (%s)", e.why)
+					}
+					if returns != (st < 0 || sp <= st || sp > n) {
+						guard = false
+					}
+				}
+			}
+		}
+		fmt.Fprintf(b, "(* linkdestination.go appendReplacement: the first statement returns iff start < 0 || stop <= start || stop > len(src) (grid -2..5 x -2..6 x 0..5) *)\nDefinition gen_ld_guard_ok : bool := %s.\n\n", coqBool(guard))
+
+		// applyReplacements: the loop skips r iff r.start < prev, and prev becomes r.stop
+		ap := findMethod(p, "linkDestinationReplacer", "applyReplacements")
+		if ap == nil {
+			return fmt.Errorf("linkDestinationReplacer.applyReplacements not found")
+		}
+		als := loops(ap.Body)
+		if len(als) != 1 {
+			return fmt.Errorf("applyReplacements: expected 1 loop, found %d", len(als))
+		}
+		pobj := localObj(p, ap, "prev")
+		skipOK := true
+		for st := int64(-2); st <= 5; st++ {
+			for pv := int64(0); pv <= 5; pv++ {
+				e := newEnv(p)
+				e.vars[pobj] = constant.MakeInt64(pv)
+				e.byname["r.start"] = constant.MakeInt64(st)
+				e.byname["r.stop"] = constant.MakeInt64(77)
+				k := e.run(loopBody(als[0]).List)
+				switch k {
+				case stopContinue:
+					if !(st < pv) || i64(e.vars[pobj]) != pv {
+						skipOK = false
+					}
+				case stopNone:
+					if st < pv || i64(e.vars[pobj]) != 77 || len(e.effects) != 2 || e.effects[0].fn != "dst.Write" || e.effects[1].fn != "dst.WriteString" {
+						skipOK = false
+					}
+				default:
+					return fmt.Errorf("applyReplacements: loop body not evaluable (%s)", e.why)
+				}
+			}
+		}
+		fmt.Fprintf(b, "(* linkdestination.go applyReplacements: an element is skipped iff r.start < prev; otherwise dst.Write, dst.WriteString and prev = r.stop *)\nDefinition gen_ld_apply_loop_ok : bool := %s.\n", coqBool(skipOK))
+		return nil
+	})
+}
